@@ -159,12 +159,20 @@ def deep_task(task):
 
 def n1_task(bx):
     lo, up = box(bx, 1)
-    ev = Evolvent(lo, up, 1, 10)
+    lo_arr, up_arr = np.array(lo, dtype=np.double), np.array(up, dtype=np.double)
+    ev = Evolvent(lo_arr, up_arr, 1, 10)
     msgs = []
     prev = None
     K = 1 << 10
     for i in range(K + 1):
         x = i / K
+        if i % 64 == 1:
+            # in between: inverse queries with an integer-typed argument, and the caller re-using the arrays it passed
+            # as bounds - neither may change what the object answers next
+            ev.GetPreimages([int(math.floor(lo[0])) + 1])
+            ev.GetInverseImage(np.array([int(math.floor(lo[0])) + 1]))
+            lo_arr[...] = lo_arr + 3.0
+            up_arr[...] = up_arr - 5.0
         y = float(ev.GetImage(x)[0])
         e = lo[0] + x * (up[0] - lo[0])
         tol = 4 * math.ulp(max(abs(lo[0]), abs(up[0])))
